@@ -20,7 +20,7 @@ RULE = (
     "positions that are not cluster multiples) and v2 (BAT in clusters), cluster sizes 1..2048 sectors, "
     "shuffled/reversed/run-wise placement and systematic coincidence placement (a cluster that follows k "
     "unallocated clusters stored at file offset k*cluster); plain images; both HDS(fh) and HDD(dir).open() over "
-    "a generated DiskDescriptor.xml; plus the repository's three fixtures against a naive reference reader. "
+    "a generated DiskDescriptor.xml, also with several storages (expanding with holes, and plain) behind one HDD; plus the repository's three fixtures against a naive reference reader. "
     "Non-trivial: >=2 clusters with a non-sequential placement or a mix of allocated/unallocated clusters. "
     "distinct = distinct (version, cluster size, states, BAT) signatures."
 )
@@ -28,7 +28,7 @@ ASSUMPTIONS = [
     "the harness's HDS writer/reference reader are a faithful reading of the ploop/Parallels layout",
     "held means: held on the executions listed, not verified for all inputs",
 ]
-MINIMA = {"quick": {"reads_compared": 3000, "coincidence_cases": 20}, "thorough": {"reads_compared": 30000}}
+MINIMA = {"quick": {"reads_compared": 3000, "coincidence_cases": 20, "multi_storage_cases": 8}, "thorough": {"reads_compared": 30000}}
 MECH = "hds.read"
 DATA = os.path.join(os.environ.get("VF_REPO", "/repo"), "tests", "data")
 
@@ -48,6 +48,8 @@ def plan(tier: str, seed: int) -> list[dict]:
         })
     for i in range(6 if tier == "quick" else 60):
         cases.append({"k": "plain", "i": i})
+    for i in range(16 if tier == "quick" else 200):
+        cases.append({"k": "multi", "i": i})
     fx = ["expanding.hdd", "split.hdd"] + (["plain.hdd"] if tier == "thorough" else [])
     for f in fx:
         cases.append({"k": "fixture", "name": f, "weight": 60})
@@ -141,6 +143,24 @@ def run(case: dict, ctx) -> dict:
         res["nontrivial"] = True
         res["sig"] = ("fixture", case["name"])
         res["sample"] = {"fixture": case["name"], "size": model.size, "requests": reqs[:3]}
+        return res
+
+    if k == "multi":
+        # several storages (expanding and plain) behind one HDD: holes of a later storage must read as zeros
+        from vf import streams
+
+        o = call(streams.open_kind, "hdd-storages", rng, ctx)
+        if not o.ok:
+            res["viol"].append({"what": f"open failed on a well-formed multi-storage .hdd: {o.brief()}", "mech": MECH, "detail": {"tb": o.tb}})
+            return res
+        op = o.value
+        reqs, _ = gen_requests(rng, op.model.size, [SECTOR * 8, 8192], n_random=40)
+        reqs.append((0, op.model.size))
+        compare_reads(op.stream, op.model, reqs, res, MECH)
+        res["cnt"]["multi_storage_cases"] = 1
+        res["nontrivial"] = True
+        res["sig"] = ("multi", case["i"], op.model.size)
+        res["sample"] = {"multi_storage": op.info, "size": op.model.size}
         return res
 
     if k == "plain":
